@@ -57,6 +57,10 @@ pub struct C12Plan {
     pub reference: Option<(f64, f64)>,
     pub yields: bool,
     pub sched: SchedSpec,
+    /// the record stamps count from 0 instead of from the simulation's epoch (a
+    /// capture replayed with relative times: the first records fall in second 0)
+    #[serde(default)]
+    pub relative_time: bool,
 }
 
 pub struct C12;
@@ -190,7 +194,7 @@ impl Scenario for C12 {
         };
         let n = if crowd { rng.usize(n_ac, 2 * n_ac + 50) } else { rng.usize(1, max) };
         let mut records = Vec::new();
-        let mut t_ms: u64 = 50_000;
+        let mut t_ms: u64 = *rng.pick(&[50_000u64, 50_000, 50_000, 0, 300]);
         let mut at: u64 = 0;
         let burst = rng.chance(0.5);
         for k in 0..n {
@@ -255,6 +259,7 @@ impl Scenario for C12 {
             reference: if rng.chance(0.5) { Some((rng.frange(-60., 60.), rng.frange(-170., 170.))) } else { None },
             yields: rng.chance(0.8),
             sched: SchedSpec::generate(rng, 8 * n as u32 + 32),
+            relative_time: rng.chance(0.04),
         }
     }
     fn execute(&self, plan: &C12Plan) -> Outcome<C12Plan> {
@@ -650,6 +655,7 @@ pub fn execute(plan: &C12Plan) -> Outcome<C12Plan> {
 
     // decode the frames (real decoder); undecodable ones never reach the loop
     // (dedup only forwards decodable frames)
+    let epoch0 = if plan.relative_time { 0.0 } else { exec::EPOCH_S as f64 };
     let mut msgs: Vec<(u64, TimedMessage)> = Vec::new();
     let mut undecodable = 0u64;
     // a record that cannot be rendered as JSON shows no address at all: the
@@ -663,11 +669,11 @@ pub fn execute(plan: &C12Plan) -> Outcome<C12Plan> {
             Ok(m) => msgs.push((
                 r.at_ns,
                 TimedMessage {
-                    timestamp: exec::EPOCH_S as f64 + r.ts_ms as f64 * 1e-3,
+                    timestamp: epoch0 + r.ts_ms as f64 * 1e-3,
                     frame: f,
                     message: Some(m),
                     metadata: vec![SensorMetadata {
-                        system_timestamp: exec::EPOCH_S as f64 + r.ts_ms as f64 * 1e-3,
+                        system_timestamp: epoch0 + r.ts_ms as f64 * 1e-3,
                         gnss_timestamp: None,
                         nanoseconds: None,
                         rssi: None,
